@@ -472,6 +472,32 @@ def model_shapes(rng, idx: int, module: str) -> SdkModel:
     return SdkModel(f"shapes-{idx}", mm, module, or_default=or_default, extra_snippets=extra)
 
 
+def model_mixins(rng, idx: int, module: str) -> SdkModel:
+    """Multiple inheritance: a concrete parent plus an abstract mix-in that contributes
+    class-typed and list-of-class properties; children WITHOUT own properties (single and
+    multiple inheritance); a concrete child of a concrete class without own properties; a
+    child with an own descendable property; a container nesting all of them."""
+    mm = _mm()
+    T, O, L, P, U = mmg.TPrim, mmg.TOpt, mmg.TList, mmg.Property, mmg.TOur
+    extra = mmg.Class("Extra_item", properties=[P("text", T("str"))])
+    has_extras = mmg.Class("Has_extras", is_abstract=True, with_model_type=True,
+                           properties=[P("extras", O(L(U("Extra_item")))), P("main_extra", O(U("Extra_item")))])
+    plain = mmg.Class("Plain_part", with_model_type=True,
+                      properties=[P("name", T("str")), P("part_item", O(U("Extra_item")))])
+    derived = mmg.Class("Derived_part", bases=["Plain_part", "Has_extras"])
+    sub_plain = mmg.Class("Sub_plain", bases=["Plain_part"])
+    sub_sub = mmg.Class("Sub_sub_plain", bases=["Sub_plain"])
+    sub_own = mmg.Class("Sub_with_own", bases=["Plain_part"], properties=[P("more", O(L(U("Extra_item"))))])
+    mixed_own = mmg.Class("Mixed_with_own", bases=["Sub_with_own", "Has_extras"])
+    only_mixin = mmg.Class("Only_extras", bases=["Has_extras"])
+    container = mmg.Class("Part_container",
+                          properties=[P("parts", L(U("Plain_part"))), P("first_part", O(U("Plain_part"))),
+                                      P("derived", O(U("Derived_part"))), P("with_extras", O(U("Has_extras"))),
+                                      P("subs", O(L(U("Sub_plain")))), P("inner", O(L(U("Part_container"))))])
+    mm.classes = [extra, has_extras, plain, derived, sub_plain, sub_sub, sub_own, mixed_own, only_mixin, container]
+    return SdkModel(f"mixins-{idx}", mm, module)
+
+
 def model_float_default(rng, idx: int, module: str) -> SdkModel:
     """A required float property whose constructor argument has a default (kept apart from
     the shapes model: on a tree without the repair the generated types module has a syntax
